@@ -42,7 +42,7 @@ def apply_variant(base, tmp, v, n):
     # hard-link copy is enough: we rewrite (not modify in place) the edited file
     shutil.copytree(base, root, copy_function=os.link)
     edits = v.get("edits") or [dict(file=v["file"], old=v["old"], new=v["new"], count=v.get("count", 1),
-                                      regex=v.get("regex", False))]
+                                      regex=v.get("regex", False), strict=v.get("strict", True))]
     for e in edits:
         p = os.path.join(root, e["file"])
         with open(p, encoding="utf-8", errors="replace") as f:
